@@ -1,8 +1,8 @@
 From Coq Require Extraction ExtrOcamlBasic.
-From OxiVerif Require Import Base.Conv DD.Table DD.Sem.
+From OxiVerif Require Import Base.Conv DD.Table DD.TableExtra DD.Sem.
 Extraction Language OCaml.
 Extraction "model.ml" conv_anchor
-  Table.sem_edge Table.wf_b Table.perm_inverse_b Table.node_ok_b Table.unique_nodes_b
+  Table.sem_edge Table.wf_b TableExtra.terms_kind_b TableExtra.wf_full_b Table.perm_inverse_b Table.node_ok_b Table.unique_nodes_b
   Table.terms_unique_b Table.handles_ok_b
   Table.rc_exact_b Table.rc_first_bad Table.no_dead_b Table.count_reach Table.famz
   Sem.eval_bop Sem.lift1 Sem.lift2 Sem.ite_s Sem.const_s Sem.var_s Sem.cof Sem.exists_s Sem.forall_s Sem.unique_s
